@@ -516,6 +516,7 @@ pub fn run_play(cfg: &WalkCfg, case: &PlayCase, st: &mut Stats) -> Result<(), St
         Root::Named { .. } => st.class("root: named"),
         Root::Synth(_) => st.class("root: synthetic placement"),
         Root::Motif { kind, .. } => st.class(&format!("root: motif {}", kind % MOTIFS)),
+        Root::Fen(_) => st.class("root: explicit"),
     }
     for ply in 0..=case.choices.len() {
         let legal = pos.legal();
